@@ -67,8 +67,15 @@ public:
     // std::cerr << "[" << index << "," << index % active << "]\n";
     if (mindex == substrate::ThreadPool::getSocket())
       items.getLocal()->push(val);
-    else
-      pushBuffer.getRemote(mindex)->push(val);
+    else {
+      // index is a thread id, so address the owner's socket through it (mindex
+      // is a socket id). The buffer is a chunked worklist that keeps pushes in
+      // a chunk private to the pushing thread: publish it, or the threads of
+      // the owning socket never see the item and it is lost.
+      pWL* p = pushBuffer.getRemote(index);
+      p->push(val);
+      p->flush();
+    }
   }
 
   template <typename ItTy>
